@@ -1002,6 +1002,20 @@ class _GenerateRenderMethod:
                 if node.funcname in body_identifiers.closuredefs:
                     del body_identifiers.closuredefs[node.funcname]
 
+            # the defs of a nested call with content belong to that
+            # call's own ccall(), not to this one; the lexer also hangs
+            # every node that follows a control line (at any depth)
+            # under that control line - the children of this tag are
+            # all in node.nodes already
+            def visitControlLine(s, node):
+                pass
+
+            def visitCallTag(s, node):
+                pass
+
+            def visitCallNamespaceTag(s, node):
+                pass
+
         vis = DefVisitor()
         for n in node.nodes:
             n.accept_visitor(vis)
